@@ -6,9 +6,21 @@ res = {}
 for f in sorted(glob.glob('/tmp/seed/results*.json')):
     for r in json.load(open(f)):
         key = (r['property'], r['mutation'])
-        # later files (re-runs) win only if confirmed
-        if key not in res or r.get('status') == 'confirmed':
-            res[key] = r
+        if r.get('status') != 'confirmed':
+            res.setdefault(key, r)
+            continue
+        if key in res and res[key].get('status') == 'confirmed':
+            # union of detections over all runs (later runs re-check with strengthened rules)
+            old = res[key]
+            det = sorted(set(old.get('detected_by') or []) | set(r.get('detected_by') or []))
+            checks = dict(old.get('checks') or {})
+            for q, v in (r.get('checks') or {}).items():
+                if q not in checks or v['exit'] != 0:
+                    checks[q] = v
+            if not r.get('demo') and old.get('demo'):
+                r['demo'] = old['demo']
+            r = dict(r, detected_by=det, checks=checks)
+        res[key] = r
 os.makedirs('/verif/seeded', exist_ok=True)
 rows = []
 for (p, i), r in sorted(res.items()):
